@@ -223,6 +223,18 @@ package parse
 //@   assert @store:F.sysl.%.Stmt [appended-at-end] len(stored) == len(target.Stmt) + 1 && stored[len(stored)-1] == stmt && forall(i, 0, len(target.Stmt), stored[i] == target.Stmt[i])
 //@   ensures [statement-appended] ghost("appended")
 
+// Attribute maps are merged without sharing array attributes: an array that a map takes over from another map is a
+// new attribute with an element list of its own, so extending it later (a REST method adding to an attribute its path
+// declares) cannot reach the map it came from — the path itself, or the sibling methods that take it over next.
+//@ spec isArrayAttr(v ref) bool = v != nil && tagof(v.Attribute) == typeid("*sysl.Attribute_A") && as("*sysl.Attribute_A", v.Attribute).A != nil
+//@ func ownArrayAttr
+//@   pure
+//@   ensures [array-gets-its-own-holder] old(isArrayAttr(v)) ==> fresh(result) && result != v && fresh(as("*sysl.Attribute_A", result.Attribute).A)
+//@   ensures [other-kinds-are-passed-on] !old(isArrayAttr(v)) ==> result == v
+//@ func mergeAttrs
+//@   maypanic
+//@   assert @mapupdate:map[string]*sysl.Attribute [taken-over-arrays-are-owned] stored != v || !isArrayAttr(v)
+
 // Enum values are parsed as full 64-bit decimal numbers.
 //@ func (*TreeShapeListener).EnterEnum
 //@   requires ctx != nil && ctx.BaseParserRuleContext != nil
